@@ -167,6 +167,17 @@ impl<'a> Visitor for Enumerate<'a> {
                 jobs.push((Op::Powf(F::from64(p).to64()), b));
             }
         }
+        // integer-valued exponents beyond the i32 range (a cast to i32 saturates or wraps) on bases
+        // 1 +- 2^-33, so that the power stays moderate; f64 only (the bases are 1 in f32)
+        if F::PREC == 53 {
+            for p in [2147483648.0, 4294967298.0, 3e9, -3e9, 1e12, -4294967296.0] {
+                for b in [1.0 + 2f64.powi(-33), 1.0 - 2f64.powi(-33)] {
+                    if ((p * (b.ln())) as f64).abs() < 200.0 {
+                        jobs.push((Op::Powf(p), b));
+                    }
+                }
+            }
+        }
         // small and large bases
         for p in [0.5, 1.5, -1.5, 3.0] {
             for b in [1.2345678e-6, 1048576.0, 1e-12] {
@@ -235,6 +246,9 @@ impl<'a> Visitor for Enumerate<'a> {
 }
 
 fn universe(tier: Tier, v: &mut impl Visitor) {
+    // the plain-float instances have their own powi / powf / powd
+    v.visit::<f64, f64>(Dims::NONE);
+    v.visit::<f32, f32>(Dims::NONE);
     scalar_types(v);
     v.visit::<f64, num_dual::DualSVec64<2>>(Dims::n(2));
     v.visit::<f64, num_dual::Dual2SVec64<2>>(Dims::n(2));
